@@ -114,7 +114,9 @@ func typedShapes() []shape {
 
 // value policies: which natural number (hence which value of the result type, see driversrc.go)
 // every function returns. 0 = zero value (nil interface, nil pointer, ...), 1 = typed nil / empty.
-func policies() []string { return []string{"nil-when-failing", "all-nil", "typed-nil", "mixed", "values"} }
+func policies() []string {
+	return []string{"nil-when-failing", "all-nil", "typed-nil", "mixed", "values"}
+}
 
 func policyValues(pol string, n, mask int, r *hx.Rand) []int {
 	rvs := make([]int, n)
@@ -193,6 +195,96 @@ func intCasesOld(meta *hx.Meta, r *hx.Rand, gover string, thorough bool) (string
 				k++
 				meta.Count(fmt.Sprintf("run/%s/int/n=%d", gover, n))
 			}
+		}
+	}
+	return b.String(), k
+}
+
+// error policies (hardening round 5): what kind of VALUE the error of a failing function is
+// (driversrc.go: mkErr). The original battery used four comparable kinds, a different one per
+// position. errs-slice/-map/-multi/-func: every failing function returns an error of the same
+// dynamic type whose values are not comparable (validation errors / multi errors are commonly slices,
+// maps, structs with a slice field); errs-boxed: a comparable struct type holding such an error;
+// errs-uncmp-mixed: a seeded mixture of these; errs-same-slice / errs-sentinel / errs-nilptr: all
+// failing functions return the SAME error value (one tag in the model) - an uncomparable one, a
+// package-level sentinel, a typed nil pointer (a non-nil error).
+func errPolicies() []string {
+	return []string{"errs-slice", "errs-map", "errs-multi", "errs-boxed", "errs-func", "errs-uncmp-mixed",
+		"errs-same-slice", "errs-sentinel", "errs-nilptr"}
+}
+
+func sharedErr(pol string) bool {
+	return pol == "errs-same-slice" || pol == "errs-sentinel" || pol == "errs-nilptr"
+}
+
+// fsSexpE: like fsSexp, but under a shared-error policy every failing function has the tag 1
+func fsSexpE(n int, mask int, scripts [][]string, pol string) string {
+	var b strings.Builder
+	b.WriteString("(fs")
+	for i := 0; i < n; i++ {
+		re := 0
+		if mask&(1<<i) != 0 {
+			re = i + 1
+			if sharedErr(pol) {
+				re = 1
+			}
+		}
+		fmt.Fprintf(&b, " (f (%s) %d %d)", strings.Join(scripts[i], " "), 100+7*i, re)
+	}
+	b.WriteString(")")
+	return b.String()
+}
+
+// errCases: the int instances x error policies x failing subsets x configurations.
+// quick: n = 2 every subset x {independent, pair01}; n = 3 every subset, the configuration
+// alternating between independent and first-waits-for-last; n = 4 one subset with at least two
+// failing functions per policy (the model evaluation of a 4-function case is expensive).
+// thorough: n <= 3 every configuration x every subset; n = 4 independent x every subset with at
+// least two failing functions.
+func errCases(meta *hx.Meta, r *hx.Rand, gover string, thorough bool) (string, int) {
+	var b strings.Builder
+	k := 0
+	cs := configs()
+	byName := map[string]config{}
+	for _, c := range cs {
+		byName[c.name] = c
+	}
+	emit := func(n, mask int, c config, pol string) {
+		all := perms(n)
+		o := all[r.Intn(len(all))]
+		pr := []int{1, 4, 16}[k%3]
+		fmt.Fprintf(&b, "%d|%s|int|%s int %s|%s\n", pr, ranks(o), gover, pol, fsSexpE(n, mask, c.scripts(n), pol))
+		k++
+		meta.Count(fmt.Sprintf("run/%s/int/%s/n=%d", gover, pol, n))
+	}
+	for pi, pol := range errPolicies() {
+		for n := 2; n <= 3; n++ {
+			for mask := 0; mask < 1<<n; mask++ {
+				switch {
+				case thorough:
+					for _, c := range cs {
+						emit(n, mask, c, pol)
+					}
+				case n == 2:
+					emit(n, mask, byName["independent"], pol)
+					emit(n, mask, byName["pair01"], pol)
+				default:
+					emit(n, mask, byName[[]string{"independent", "first-waits-for-last"}[(mask+pi)%2]], pol)
+				}
+			}
+		}
+		var multi []int // subsets of 4 with at least two failing functions
+		for mask := 0; mask < 16; mask++ {
+			if mask&(mask-1) != 0 {
+				multi = append(multi, mask)
+			}
+		}
+		if thorough {
+			for _, mask := range multi {
+				emit(4, mask, byName["independent"], pol)
+			}
+		} else {
+			emit(4, multi[r.Intn(len(multi))], byName["independent"], pol)
 		}
 	}
 	return b.String(), k
@@ -378,8 +470,11 @@ func Run(cfg hx.Config) (*hx.Meta, error) {
 		return c == "independent" || c == "first-waits-for-last"
 	})
 	ncase += nt
+	// error values of other dynamic types (uncomparable, shared, typed nil)
+	ecases, ne := errCases(meta, r.Fork(30), "go1.24", thorough)
+	ncase += ne
 	genFiles := map[string]string{"go.mod": "module p\n\ngo 1.24\n", "calls.go": callsSrc, "derived.gen.go": string(gen)}
-	if !runBattery(meta, cfg, dir, "", genFiles, ccases.String()+tcases+cases.String()) {
+	if !runBattery(meta, cfg, dir, "", genFiles, ccases.String()+ecases+tcases+cases.String()) {
 		meta.Cases = ncase + nsearch
 		return meta, nil
 	}
